@@ -4,7 +4,7 @@
                               ((ds...) (B s) (C s) (H s) (F s (refs) (combo)) (D) ...)
      (R fixed json table)  -> (ok (((code) iserr) ...)) | (exn Name)
                               table entries: (D issues) (B s issues) (C s n) (H s n) (F s refs combo issues)
-     (X refs s) (X braces s) (X refchar c) (X detect basic json)   helper functions *)
+     (X refs s) (X braces s) (X refchar c) (X detect basic json) (X structok json)   helper functions *)
 let exn_sx (e : exn) : sx = A (match e with
   | TypeError -> "TypeError" | KeyError -> "KeyError" | AttributeError -> "AttributeError"
   | ValueError -> "ValueError" | IndexError -> "IndexError" | RecursionError -> "RecursionError"
@@ -73,6 +73,8 @@ let () = main_loop (fun x ->
     (match detect_column_type (sx_bool b) (sx_json j) with
      | None -> A "None" | Some CIgnore -> A "Ignore" | Some CCategorical -> A "Categorical"
      | Some CValue -> A "Value")
+  | L [A "X"; A "structok"; j] ->
+    (match sx_json j with JObj kvs -> bool_sx (struct_ok kvs) | _ -> A "notobj")
   | L [A "X"; A "codes"] ->
     L (List.map (fun k -> L [str_sx (kind_code k); bool_sx (kind_is_error k)])
          [K_BLANK_HED_STRING; K_WRONG_HED_DATA_TYPE; K_INVALID_POUND_SIGNS_VALUE;
